@@ -175,9 +175,12 @@ def handleField (e : FEnv) (w : Nat) (op : String) (args : List String) (got : S
           else if o == "inv_binar" then optHex (Relic.Model.FbInv.invBinar D.w F a)
           else if o == "inv_almos" then optHex (Relic.Model.FbInv.invAlmos D.w F a)
           else if o == "inv_exgcd" then optHex (Relic.Model.FbInv.invExgcd F a)
+          else if o == "inv_bruch" then optHex (Relic.Model.FbInv.invBruch D.w D.n F a)
+          else if o == "inv_ctaia" then optHex (Relic.Model.FbInv.invCtaia D.w D.n F a)
           else natToHex (K.inv a)
         mpred mdl got (got != "err" && F.isElem c && K.mul a c == 1 && got == natToHex c) ("<c with a*c = 1> e.g. " ++ natToHex (K.inv a))
           (if o == "inv_basic" || o == "inv_itoht" then ["model.chain"]
+           else if o == "inv_bruch" || o == "inv_ctaia" then ["model.fixedpass"]
            else if o == "inv_binar" || o == "inv_almos" || o == "inv_exgcd" then
              ["model.euclid", "euclid.deg" ++ (if bitLen a == 1 then "0" else if bitLen a == F.m then "top" else if a % 2 == 0 then "even" else "odd")]
            else [])
